@@ -2,8 +2,8 @@
 //! memory limit and symbolic bail-out flags (C11 failure sites, C12, C09 flush). The parser runs on
 //! concrete bytes (tractable); what the solver quantifies over is the limit, the flags and the failure.
 //! Child module of `transform_stream`.
-// @requires src/transform_stream/dispatcher/verif_kani.rs
-use super::dispatcher::verif_kani::{Ctl, Rec};
+// @requires src/transform_stream/dispatcher/verif_kani_mocks.rs
+use super::dispatcher::verif_kani_mocks::{Ctl, Rec};
 use super::*;
 use crate::base::SharedEncoding;
 
